@@ -53,7 +53,7 @@ func registerAll() {
 	}
 
 	// ---- engine rpc ----
-	rpcRules := instrument.Rules{Conc: true, MapRange: true, Dial: true, Rand: true}
+	rpcRules := instrument.Rules{Conc: true, MapRange: true, Dial: true, Rand: true, NumCPU: true} // NumCPU: the handshake semaphore is sized from GOMAXPROCS at package init; behind the seam it is 1+1 whatever the host has
 	rpcHarness := []string{"rpc/zz_verif_rpc_test.go", "rpc/zz_verif_frame_test.go", "rpc/zz_verif_calls_test.go"}
 	builds["rpc"] = &build{name: "rpc", pkg: modPath + "/pkg/rpc", harness: rpcHarness,
 		extra:    map[string]string{"internal/vkgo/pkg/semaphore/zz_verif_peek.go": "harness/semaccess/zz_verif_peek.go"},
